@@ -92,28 +92,41 @@ def getMeta (c : Bytes) : StoreM CMeta := do
   | some _ => fail .badInput
   | none => fail .collNotExist
 
+/-- is the in-memory sort node present? -/
+def needSort (q : Query) (sorted : Bool) : Bool := !q.sort.isEmpty && !sorted
+
+/-- what happens to a candidate document: filter, then the sort node or the skip/limit + consumer -/
+def onDocOf (q : Query) (stopAfter : Option Nat) (ns : Bool) (st : Pipe) (d : Doc) : Pipe × Flow :=
+  if satOpt likeFn fnFam d q.crit then (if ns then collect st d else emit q stopAfter st d) else (st, .cont)
+
+/-- `iterNode.iterateFullCollection` -/
+def fullScan (coll : Bytes) (onDoc : Pipe → Doc → Pipe × Flow) : StoreM Pipe := do
+  let kv ← snapshot
+  let pfx := Keys.docPrefix coll
+  loopPrefix pfx (fun st e => match e.2 with
+    | .doc d => pure (onDoc st d)
+    | _ => fail .badInput) {} (seekFwd kv pfx)
+
+/-- the callback of `iterNode.iterateIndex`: fetch the document of an index entry -/
+def onIdOf (coll : Bytes) (onDoc : Pipe → Doc → Pipe × Flow) (st : Pipe) (id : Bytes) : StoreM (Pipe × Flow) := do
+  match (← get (Keys.docKey coll id)) with
+  | some (.doc d) => pure (onDoc st d)
+  | _ => pure (st, .cont)
+
+/-- `execPlan`'s Finish phase: the sort node sorts and feeds the rest of the pipeline -/
+def finishPipe (q : Query) (stopAfter : Option Nat) (ns : Bool) (st : Pipe) : List Doc :=
+  (if ns then feed q stopAfter st (sortDocs q.sort st.buf.reverse) else st).out.reverse
+
 /-- `iterateDocs`: metadata lookup, plan construction, plan execution; returns what the consumer saw -/
 def iterateDocs (q : Query) (stopAfter : Option Nat) : StoreM (List Doc) := do
   let m ← getMeta q.coll
-  let (src, sorted) := choosePlan m.indexes q
-  let needSort := !q.sort.isEmpty && !sorted
-  let down : Pipe → Doc → Pipe × Flow := if needSort then collect else emit q stopAfter
-  let onDoc (st : Pipe) (d : Doc) : Pipe × Flow :=
-    if satOpt likeFn fnFam d q.crit then down st d else (st, .cont)
-  let onId (st : Pipe) (id : Bytes) : StoreM (Pipe × Flow) := do
-    match (← get (Keys.docKey q.coll id)) with
-    | some (.doc d) => pure (onDoc st d)
-    | _ => pure (st, .cont)
-  let st ← match src with
-    | .full => do
-      let kv ← snapshot
-      let pfx := Keys.docPrefix q.coll
-      loopPrefix pfx (fun st e => match e.2 with
-        | .doc d => pure (onDoc st d)
-        | _ => fail .badInput) {} (seekFwd kv pfx)
-    | .idxRange f r rev => iterateRange q.coll f r rev onId {}
-    | .idxAll f rev => iterateAll q.coll f rev onId {}
-  let st := if needSort then feed q stopAfter st (sortDocs q.sort st.buf.reverse) else st
-  pure st.out.reverse
+  let plan := choosePlan m.indexes q
+  let ns := needSort q plan.2
+  let onDoc := onDocOf likeFn fnFam q stopAfter ns
+  let st ← match plan.1 with
+    | .full => fullScan q.coll onDoc
+    | .idxRange f r rev => iterateRange q.coll f r rev (onIdOf q.coll onDoc) {}
+    | .idxAll f rev => iterateAll q.coll f rev (onIdOf q.coll onDoc) {}
+  pure (finishPipe q stopAfter ns st)
 
 end CV
